@@ -125,12 +125,21 @@ def gen(rng, tier):
                       "resp": f"ordc({var})", "rhs": rhs, "tag": "ordered-call", "var": var})
     for rhs in ["x + f", "0 + x", "x + (1|g)"]:
         cases.append({"formula": rhs, "frame": gen_dm.make_frame(rng), "na": "drop", "kind": "none", "resp": None, "rhs": rhs})
+    # the trials passed BY KEYWORD while the caller's namespace binds the same name to something else: the column of
+    # the frame is what the response holds (data before namespace, also for keyword arguments; oracle only)
+    for resp in ["prop(succ, trials=n_trials)", "p(succ, trials=n_trials)", "proportion(succ, trials=n_trials)",
+                 "prop(successes=succ, trials=n_trials)"]:
+        for rhs in ["x", "x + g"]:
+            cases.append({"formula": f"{resp} ~ {rhs}", "frame": gen_dm.make_frame(rng), "na": "drop", "kind": "prop",
+                          "resp": resp, "rhs": rhs, "tag": "kw-trials"})
     return cases
 
 
 def _ns(c):
     """user functions of the call-response stratum: they return a bare ORDERED pandas Categorical (an array, not a
     Series) whose declared order is the reverse of the sorted one, with one declared level nobody is in"""
+    if c.get("tag") == "kw-trials":
+        return {"n_trials": 1000, "succ": 0}
     if c.get("tag") != "ordered-call":
         return None
     import pandas as pd
@@ -142,20 +151,20 @@ def _ns(c):
 
 
 def _build(c):
-    if c.get("tag") == "ordered-call":
+    if c.get("tag") in ("ordered-call", "kw-trials"):
         from formulae import design_matrices
         return design_matrices(c["formula"], dm.to_pandas(c["frame"]), extra_namespace=_ns(c))
     return dm.build(c)
 
 
 def model_cmd(c):
-    if c.get("tag") == "ordered-call":
+    if c.get("tag") in ("ordered-call", "kw-trials"):
         c = dict(c, formula="y ~ " + c["rhs"])    # placeholder: decided by the oracle alone
     return D.model_cmd(c)
 
 
 def impl_obs(c):
-    if c.get("tag") == "ordered-call":
+    if c.get("tag") in ("ordered-call", "kw-trials"):
         try:
             return ["ok", dm.observe_design(_build(c))]
         except Exception as e:  # noqa
@@ -164,7 +173,7 @@ def impl_obs(c):
 
 
 def compare(c, mo, obs):
-    if c.get("tag") == "ordered-call":
+    if c.get("tag") in ("ordered-call", "kw-trials"):
         return None
     return D.compare(c, mo, obs)
 
